@@ -854,4 +854,28 @@ theorem sortDecl_eq (l : List DE) (rest : List DS) :
   frag := by simp [fragL, fragS]
   anyFn := by simp [isFn]
 
+/-! ## comma lists as statements -/
+
+theorem eval_comma (H : Host) (K : Val → List Val → M Val) (l : List DE) (env : Env) :
+    eval H K (.comma l) env = bindM (evalL H K l env) (fun vs => retM (vs.getLast?.getD .undef)) := rfl
+
+theorem evalL_cons (H : Host) (K : Val → List Val → M Val) (a : DE) (t : List DE) (env : Env) :
+    evalL H K (a :: t) env = bindM (eval H K a env) (fun v => bindM (evalL H K t env) (fun vs => retM (v :: vs))) := rfl
+
+/-- **`a,b,…;` and `a;b,…;`**: an expression statement with a comma list runs its first item and then the rest -/
+theorem commaSplit_eq (a b : DE) (t : List DE) (rest : List DS) :
+    ListEqA [] (.expr (.comma (a :: b :: t)) :: rest) (.expr a :: .expr (.comma (b :: t)) :: rest) where
+  dyn := by
+    intro H K env
+    simp only [execL_unit H K (.expr (.comma (a :: b :: t))) rest env _ (exec_expr H K _ env),
+      execL_unit H K (.expr a) _ env _ (exec_expr H K a env),
+      execL_unit H K (.expr (.comma (b :: t))) rest env _ (exec_expr H K _ env),
+      eval_comma, evalL_cons H K a (b :: t), bindM_assoc, retM_bind]
+  lex := by simp [lexDeclsL]
+  vars := by intro x; simp [varNamesL, varNamesS]
+  fns := by simp [fnDeclsL]
+  early := by simp [earlyItems, earlyS, constNoInit]
+  frag := by simp [fragL, fragS]
+  anyFn := by simp [isFn]
+
 end Verif.Proofs.JsDecl
